@@ -108,6 +108,25 @@ def run(ctx: Ctx):
                 jobs.append(tabrun.job_for(len(jobs), lg, prem, conc, opts=tabrun.OPTS[0], kind='targeted:' + kn, max_steps=1200))
                 ntarget += 1
     ctx.add_cov(targeted_jobs=ntarget, targeted_rules=sorted(by_rule))
+    # shape-directed family: every truth-functional rule row (operator x negated) on every combination of OPERAND SHAPES
+    # (letter, negation, double negation, compound) in arguments that put the compound on a designated and on an
+    # undesignated node — a rule that treats some operand shape specially (e.g. un-negating a negated operand instead of
+    # negating it) keeps its table on letters and is only exposed by such operands
+    def ng1(x): return Operated(N, (x,))
+    SH_X = [A, ng1(A), ng1(ng1(A)), Operated(Operator.Conjunction, (A, B))]
+    SH_Y = [B, ng1(B), ng1(ng1(B)), A, ng1(A), Operated(Operator.Disjunction, (A, C))]
+    tf_ops = [o for o in Operator if o not in (Operator.Possibility, Operator.Necessity)]
+    combos = []
+    for o in tf_ops:
+        inners = [Operated(o, (x,)) for x in SH_X + SH_Y[:3]] if o.arity == 1 else [Operated(o, (x, y)) for x in SH_X for y in SH_Y]
+        for inner in inners:
+            for S in (inner, ng1(inner)):
+                combos += [([], S)] + [([S], c) for c in (A, B, C, ng1(A), ng1(B))] + [([p1], S) for p1 in (A, B, ng1(A), ng1(B))]
+    n_shape = ctx.scale(120, 1500)
+    for lg in logics:
+        for prem, conc in (combos if len(combos) <= n_shape else rng.sample(combos, n_shape)):
+            jobs.append(tabrun.job_for(len(jobs), lg, prem, conc, opts=tabrun.OPTS[rng.randrange(4)], kind='shape-directed', max_steps=1200))
+    ctx.add_cov(shape_directed_family=len(combos), shape_directed_per_logic=min(n_shape, len(combos)))
     outs = tabrun.run_jobs(jobs, order_seed=ctx.seed % 4)
     good = [(j, o) for j, o in zip(jobs, outs) if 'error' not in o]
     for j, o in zip(jobs, outs):
